@@ -5,6 +5,7 @@ as a native executable.
 -/
 import Driver.CavIO
 import Macaroon.Auth.Discharge
+import Macaroon.Caveat.Spec
 
 namespace Driver
 open Macaroon
@@ -16,6 +17,13 @@ def evalOp : Sx → Option String
     let c ← cav? c
     let a ← access? a
     some (errsStr (prohibits c a))
+  | .list [.atom "spec.prohibits", c, a] => do
+    let c ← cav? c
+    let a ← access? a
+    match Spec.permits c a with
+    | some true => some "ok"
+    | some false => some "errs:spec"
+    | none => some (errsStr (prohibits c a))
   | .list [.atom "validate", .list cs, .list as] => do
     let cs ← cavs? cs
     let as ← as.mapM access?
